@@ -260,15 +260,31 @@ func (m *MTProto) startPinging(ctx context.Context) {
 
 func (m *MTProto) startReadingResponses(ctx context.Context) {
 	m.routineswg.Add(1)
+	// this loop reads only connection it was started for: after Reconnect m.transport is already new
+	// connection, which has its own loop
+	conn := m.transport
 	go func() {
 		defer m.routineswg.Done()
+		defer func() {
+			// reader of stopped connection panics if it's asked to read after cancellation (send on closed
+			// channel in CancelableReader), it's same situation as below: connection is closing
+			if r := recover(); r != nil && ctx.Err() == nil {
+				panic(r)
+			}
+		}()
 
 		for {
 			select {
 			case <-ctx.Done():
 				return
 			default:
-				err := m.readMsg()
+				err := m.readMsg(conn)
+				if ctx.Err() != nil {
+					// routines were stopped while we were reading or answering (Disconnect or Reconnect called
+					// from other goroutine, e.g. handling PHONE_MIGRATE_X): connection is closing, so failed
+					// read or failed write of ack is not an error, new connection has its own reader.
+					return
+				}
 				switch err {
 				case nil: // skip
 				case context.Canceled:
@@ -286,13 +302,13 @@ func (m *MTProto) startReadingResponses(ctx context.Context) {
 	}()
 }
 
-func (m *MTProto) readMsg() error {
-	if m.transport == nil {
+func (m *MTProto) readMsg(conn transport.Transport) error {
+	if conn == nil {
 		return errors.New("must setup connection before reading messages")
 	}
 
 	verifYield("read", 0)
-	response, err := m.transport.ReadMsg()
+	response, err := conn.ReadMsg()
 	if err != nil {
 		if e, ok := err.(transport.ErrCode); ok {
 			return &ErrResponseCode{Code: int(e)}
